@@ -170,6 +170,11 @@ def _vol_shapes(tier):
             dict(deg=[1, 2, 2], m=[[], [1], []], d=2, r=2), dict(deg=[2, 1, 2], m=[[1], [], [1]], d=1, r=1),
             # knot vectors kept as given (normalize_kv=False): the inserted value may be 0 or negative
             dict(deg=[1, 1, 1], m=[[], [], []], d=1, r=1, norm=False), dict(deg=[1, 1, 1], m=[[], [], []], d=2, r=1, norm=False)]
+    # rational volumes, every direction; two directions in one call (every pair)
+    for d in range(3):
+        base.append(dict(deg=[1, 1, 1], m=[[], [], []], d=d, r=1, rational=True))
+    for d, d2 in ((0, 1), (0, 2), (1, 2)):
+        base.append(dict(deg=[1, 1, 1], m=[[], [], []], d=d, r=1, d2=d2))
     # insertion at a domain end, every direction
     for d in range(3):
         base.append(dict(deg=[1, 2, 1], m=[[], [], [1]], d=d, r=1, at_end='upper'))
@@ -182,8 +187,8 @@ def _vol_shapes(tier):
 
 @scenario('C04', fns=['operations.insert_knot', 'helpers.knot_insertion', 'BSpline.Volume.insert_knot'],
           quick=lambda: _vol_shapes('quick'), thorough=lambda: _vol_shapes('thorough'))
-def volume_insert(ctx, deg, m, d, r, norm=True, at_end=None):
-    """ensures: V(u,v,w) unchanged; only direction d grows"""
+def volume_insert(ctx, deg, m, d, r, norm=True, at_end=None, rational=False, d2=None):
+    """ensures: V(u,v,w) unchanged; only direction d (and d2, inserted in the same call) grows"""
     kvs, inner, sizes = [], [], []
     for a, pfx in enumerate('abc'):
         U, iu, n = shapes.make_kv(ctx, deg[a], m[a], prefix=pfx, normalized=norm)
@@ -196,7 +201,12 @@ def volume_insert(ctx, deg, m, d, r, norm=True, at_end=None):
     prm = [shapes.param_in(ctx, nm, kvs[a][0], kvs[a][-1]) for a, nm in enumerate(('u', 'v', 'w'))]
     su, sv, sw = sizes
     P = shapes.net(ctx, 'P', su * sv * sw, 3)
-    vol = shapes.build_volume(ctx, deg[0], deg[1], deg[2], kvs[0], kvs[1], kvs[2], P, su, sv, sw, normalize_kv=norm)
+    W = shapes.weights(ctx, 'w', su * sv * sw) if rational else None
+    vol = shapes.build_volume(ctx, deg[0], deg[1], deg[2], kvs[0], kvs[1], kvs[2], P, su, sv, sw, W, normalize_kv=norm)
+    Pw = shapes.homog(P, W)
+    if rational:
+        ctx.assume_pos(spec.volume_point(deg[0], deg[1], deg[2], kvs[0], kvs[1], kvs[2], [[w_] for w_ in W], su, sv, sw,
+                                         prm[0], prm[1], prm[2])[0], 'L.weight_function_positive')
     if at_end is not None:
         # a domain end already has multiplicity degree + 1: every insertion there exceeds the limit, is rejected and leaves
         # the volume unchanged (method and operations entry points)
@@ -217,21 +227,28 @@ def volume_insert(ctx, deg, m, d, r, norm=True, at_end=None):
             ctx.check_eq_vec('reject.kv%d_unchanged' % a_, got_, kvs[a_])
         ctx.check_eq_grid('reject.ctrlpts_unchanged', vol.ctrlpts, P)
         return
-    s = sum(1 for k in kvs[d] if x == k)
-    if r > deg[d] - s:
-        ctx.skip('rejected case covered at curve level')
-    kw = {('u', 'v', 'w')[d]: x, ('num_u', 'num_v', 'num_w')[d]: r}
+    dirs = [d] + ([d2] if d2 is not None else [])
+    for dd in dirs:
+        if r > deg[dd] - sum(1 for k in kvs[dd] if x == k):
+            ctx.skip('rejected case covered at curve level')
+    kw = {}
+    for dd in dirs:
+        kw[('u', 'v', 'w')[dd]] = x
+        kw[('num_u', 'num_v', 'num_w')[dd]] = r
     vol.insert_knot(**kw)
     exp = list(sizes)
-    exp[d] += r
+    for dd in dirs:
+        exp[dd] += r
     ctx.check_true('size.only_selected_direction', [vol.ctrlpts_size_u, vol.ctrlpts_size_v, vol.ctrlpts_size_w] == exp
-                   and len(vol.ctrlpts) == exp[0] * exp[1] * exp[2])
+                   and len(vol.ctrlpts) == exp[0] * exp[1] * exp[2],
+                   'sizes %r, expected %r' % ([vol.ctrlpts_size_u, vol.ctrlpts_size_v, vol.ctrlpts_size_w], exp))
     got_kvs = [vol.knotvector_u, vol.knotvector_v, vol.knotvector_w]
     for a in range(3):
-        if a == d:
+        if a in dirs:
             ctx.check_eq_vec('kv%d.sorted_insert' % a, got_kvs[a],
                              spec.insert_sorted(kvs[a], x, r, spec.span_spec(deg[a], kvs[a], sizes[a], x)))
         else:
             ctx.check_eq_vec('kv%d.untouched' % a, got_kvs[a], kvs[a])
-    want = spec.volume_point(deg[0], deg[1], deg[2], kvs[0], kvs[1], kvs[2], P, su, sv, sw, prm[0], prm[1], prm[2])
+    want = spec.volume_point(deg[0], deg[1], deg[2], kvs[0], kvs[1], kvs[2], Pw, su, sv, sw, prm[0], prm[1], prm[2])
+    want = spec.project(want) if rational else want
     ctx.check_eq_vec('shape.unchanged', vol.evaluate_single(prm), want)
